@@ -559,6 +559,41 @@ fn chain_and_rerun_templates(rep: &mut Report) {
     }
 }
 
+/// C13: `c = v` stores v itself - also when v is, or contains, the cell c: copies of a cell alias it wherever they sit,
+/// inside the cell's own content too
+fn cell_identity_templates(rep: &mut Report) {
+    let cases: [(&str, &str); 12] = [
+        ("c := mut any 0; c = c; (*c == c, 1)", "(true, 1)"),
+        ("c := mut any 0; r := (c = c); (r == c, *c == c)", "(true, true)"),
+        ("c := mut any 0; c = [c, 1]; e := *c; if a: [any] = e { (a[0] == c, a[1]) } else { (false, 0) }", "(true, 1)"),
+        ("c := mut any 0; c = (c, 2); e := *c; if t: (any, int) = e { (t.0 == c, t.1) } else { (false, 0) }", "(true, 2)"),
+        ("c := mut any 0; c = struct{me := c, n := 3}; e := *c; if s: struct{me: any, n: int} = e { (s.me == c, s.n) } else { (false, 0) }", "(true, 3)"),
+        ("c := mut any 0; d := mut any c; c = d; x := *c; y := if m: mut any = x { *m } else { 0 }; (x == d, y == c)", "(true, true)"),
+        ("c := mut [any] []; c += [c]; c += [c]; a := *c; (std.len(a), a[0] == c, a[1] == c)", "(2, true, true)"),
+        ("c := mut any 1; d := c; c = [d]; d = 5; *c", "5"),
+        ("c := mut any 0; c = [c]; inner := *c; w := if a: [any] = inner { a[0] } else { 0 }; if m: mut any = w { m = 7; } *c", "7"),
+        ("c := mut any 0; f := () -> any { return c }; c = f; g := *c; if h: () -> any = g { h() == c } else { false }", "true"),
+        ("c := mut int 1; d := mut mut int c; e := *d; e += 1; (*c, *d == c)", "(2, true)"),
+        ("c := mut any 0; c = [[c]]; x := *c; if a: [[any]] = x { a[0][0] == c } else { false }", "true"),
+    ];
+    for (src, want) in cases {
+        rep.evaluations += 1;
+        rep.count("cell-identity-templates");
+        let run = run_real(src, FUEL);
+        let got = match &run.outcome {
+            Outcome::Value(v) => canon(v),
+            other => other.tag(),
+        };
+        if got.starts_with("panic:") && got != "panic:Panic" {
+            rep.inconclusive("template:resource-or-fuel");
+            continue;
+        }
+        if got != want {
+            rep.violation(&format!("c13:cell-identity-template:{}", truncate(src, 60)), &format!("`{src}` gave {got}, expected {want} (a stored cell is the cell, not a copy)"), "diff", &format!("#template {want}\n{src}\n"));
+        }
+    }
+}
+
 pub fn run(cfg: &Cfg, rep: &mut Report, spec: &Spec) {
     let deadline = Deadline::new(cfg.budget_s);
     if spec.prop == "C07" && cfg.shard == 0 {
@@ -570,6 +605,7 @@ pub fn run(cfg: &Cfg, rep: &mut Report, spec: &Spec) {
     }
     if spec.prop == "C13" && cfg.shard == 0 {
         cell_negative_templates(rep);
+        cell_identity_templates(rep);
     }
     if spec.prop == "C06" && cfg.shard == 0 {
         closure_creation_templates(rep);
